@@ -116,7 +116,9 @@ def kern_obl(kern, order=1, hn=8, split=0, hiprec=0, fixed=0, maxin=4, engine='c
         defs.append('-DVF_OIR_TIGHT')
     fn = {0: 'h%d' % hn, 1: 'vpoly0', 2: ('u100_%d' if fixed else 'vpoly%d') % order, 3: 'cubic_stage_fn', 4: 'U100_0' if fixed == 2 else 'u100_0'}[kern]
     name = 'kern_%s_%s%s%s%s_in%d' % (engine.replace('.c', ''), fn, '_split' if split else '', '_hiprec' if hiprec else '', '_oirtight' if tight else '', maxin)
-    return Obl(name=name, src='kern_step.c', defs=defs, unwind=13 if kern != 4 or fixed != 2 else 44, timeout=timeout, tiers=tiers, ndebug=False,
+    if engine.endswith('s.c'):
+        defs.append('-DVF_SIMD_MODELS')
+    return Obl(name=name, src='kern_step.c', defs=defs, unwind=13 if kern != 4 or fixed != 2 else 44, timeout=timeout, tiers=tiers, ndebug=False, mem_gb=20 if engine.endswith('s.c') else 10,
                desc='%s of %s: %s from any stage state in ENV' % (fn, engine, 'split lemma (a then b == a+b)' if split else 'one call'),
                bounds='samples consumed per call <= %d; step in [0.5, 8) (2 outputs per input at most); FIFO allocation 96 samples with the valid region at an edge; %s' % (
                    maxin, 'L <= 8, M <= 24' if kern in (1, 4) else 'all 64(+64)-bit clock values in range'),
